@@ -51,7 +51,7 @@ class C10(Prop):
             "each must produce exactly its solo trace. The interleaved schedule is also run through the model (named "
             "environments sharing one contract clock). Non-trivial = a chain environment interleaved with another "
             "environment, or an episode abandoned / ended by an error before the replay; distinct = distinct cases")
-    nontrivial_tags = {"chain-interleaved", "abandoned", "error-then-reset", "pair"}
+    nontrivial_tags = {"chain-interleaved", "abandoned", "error-then-reset", "pair", "windowed-first"}
     assumptions = [
         "aliasing through mutable default arguments, module-level state of third-party packages and the global NumPy "
         "RNG are runtime behaviours the model does not exhibit; the episode window (start index) is fixed",
@@ -76,7 +76,7 @@ class C10(Prop):
         else:
             case, grid, keys = es.gen_episode(rng, tier, markov=rng.random() < 0.2)
             case["ops"] = [["reset", None, 0]] + es.gen_actions(rng, case, len(grid) - 1)
-        mode = rng.choice(["complete", "abandon", "error"])
+        mode = rng.choice(["complete", "abandon", "error", "windowed-first", "windowed-first"])
         return dict(kind="replay", base=case, mode=mode, cut=rng.randint(1, max(1, len(case["ops"]) - 1)))
 
     def run_impl(self, case):
@@ -101,12 +101,17 @@ class C10(Prop):
             first = ops[:case["cut"] + 1]
         elif case["mode"] == "error":
             first = ops[:case["cut"] + 1] + [["stepj", "str"]]
+        elif case["mode"] == "windowed-first":
+            # an earlier episode over a sampled window (reset(fold, episode_length=m), start forced), completed or not
+            m = max(2, min(4, len(ops) - 2))
+            first = [["reset", None, case["cut"] % 3, m]] + ops[1:1 + (m - 1 if case["cut"] % 2 else 1)]
         full = dict(base)
         full["ops"] = first + list(ops)
         r, s = es.run_case(full, self.COMPARE)
         if s.env is None:
             return r
-        r.tags.add({"abandon": "abandoned", "error": "error-then-reset", "complete": "completed"}[case["mode"]])
+        r.tags.add({"abandon": "abandoned", "error": "error-then-reset", "complete": "completed",
+                    "windowed-first": "windowed-first"}[case["mode"]])
         second = self.trace(s.obs[len(first):])
         rec2 = record_dump(s.env, 10**6)
         # a freshly built identical environment
